@@ -39,13 +39,33 @@ type Call struct {
 }
 
 type Fault struct {
-	Mode string `json:"mode"` // before | after | write | late (deliver j, close, linger, then report the error) | delay (slow, no failure)
+	Mode string `json:"mode"` // before | after | write | late (deliver j, close, linger, then report the error) | delay (slow, no failure) | empty (fails at once, error message "") | typednil (fails at once, typed nil error)
 	J    int    `json:"j"`
 }
 
 func (c Call) key() string { return fmt.Sprintf("%s|%s|%d", c.Kind, c.Graph, c.Occ) }
 
 var errInjected = errors.New("injected driver failure")
+
+// error values a driver may legitimately return: non-nil with an EMPTY message, and a typed nil pointer (non-nil as
+// an error interface, "" as a message)
+var errEmpty = errors.New("")
+
+type quietErr struct{}
+
+func (e *quietErr) Error() string { return "" }
+
+// errOf: the error value of a failure entry
+func errOf(f *Fault) error {
+	switch f.Mode {
+	case "empty":
+		return errEmpty
+	case "typednil":
+		var e *quietErr
+		return e
+	}
+	return errInjected
+}
 
 type fstore struct {
 	inner storage.Store
@@ -88,7 +108,7 @@ func (s *fstore) Version(ctx context.Context) string { return s.inner.Version(ct
 
 func (s *fstore) NewGraph(ctx context.Context, id string) (storage.Graph, error) {
 	if f := s.next("newgraph", id, "Store.NewGraph"); f != nil {
-		return nil, errInjected
+		return nil, errOf(f)
 	}
 	g, err := s.inner.NewGraph(ctx, id)
 	if err != nil {
@@ -99,7 +119,7 @@ func (s *fstore) NewGraph(ctx context.Context, id string) (storage.Graph, error)
 
 func (s *fstore) Graph(ctx context.Context, id string) (storage.Graph, error) {
 	if f := s.next("graph", id, "Store.Graph"); f != nil {
-		return nil, errInjected
+		return nil, errOf(f)
 	}
 	g, err := s.inner.Graph(ctx, id)
 	if err != nil {
@@ -110,7 +130,7 @@ func (s *fstore) Graph(ctx context.Context, id string) (storage.Graph, error) {
 
 func (s *fstore) DeleteGraph(ctx context.Context, id string) error {
 	if f := s.next("deletegraph", id, "Store.DeleteGraph"); f != nil {
-		return errInjected
+		return errOf(f)
 	}
 	return s.inner.DeleteGraph(ctx, id)
 }
@@ -137,7 +157,7 @@ func (s *fstore) GraphNames(ctx context.Context, names chan<- string) error {
 	}
 	close(names)
 	f.linger()
-	return errInjected
+	return errOf(f)
 }
 
 // linger: a real driver does not return in the same instant it closes its channel (mode "late")
@@ -168,7 +188,7 @@ func (g *fgraph) write(kind string, ts []*triple.Triple, f func([]*triple.Triple
 		f(ts[:n])
 	}
 	ft.linger()
-	return errInjected
+	return errOf(ft)
 }
 
 func (g *fgraph) AddTriples(ctx context.Context, ts []*triple.Triple) error {
@@ -180,7 +200,7 @@ func (g *fgraph) RemoveTriples(ctx context.Context, ts []*triple.Triple) error {
 
 func (g *fgraph) Exist(ctx context.Context, t *triple.Triple) (bool, error) {
 	if f := g.s.next("read", g.name, "Graph.Exist"); f != nil {
-		return false, errInjected
+		return false, errOf(f)
 	}
 	return g.inner.Exist(ctx, t)
 }
@@ -205,7 +225,7 @@ func stream[T any](g *fgraph, method string, out chan<- T, call func(chan<- T) e
 	}
 	close(out)
 	f.linger()
-	return errInjected
+	return errOf(f)
 }
 
 func (g *fgraph) Objects(ctx context.Context, s *node.Node, p *predicate.Predicate, lo *storage.LookupOptions, objs chan<- *triple.Object) error {
@@ -389,9 +409,9 @@ func main() {
 	defer w.Flush()
 	enc := json.NewEncoder(w)
 	rnd := rand.New(rand.NewSource(*seed))
-	modes := []Fault{{Mode: "before"}, {Mode: "after", J: 1}, {Mode: "write"}, {Mode: "late", J: 1}}
+	modes := []Fault{{Mode: "before"}, {Mode: "after", J: 1}, {Mode: "write"}, {Mode: "late", J: 1}, {Mode: "empty"}}
 	if *deep {
-		modes = append(modes, Fault{Mode: "after", J: 2}, Fault{Mode: "after", J: 0})
+		modes = append(modes, Fault{Mode: "after", J: 2}, Fault{Mode: "after", J: 0}, Fault{Mode: "typednil"})
 	}
 	bulks := []int{1, 2, 3, 100}
 
